@@ -399,6 +399,63 @@ fn int_op(op: &str, a: &[&str]) -> Option<Res> {
                 let _ = IBig::from_be_bytes(&x.to_be_bytes());
                 done()
             }
+            // ---- core::iter::Sum / Product (integer/src/iter.rs) over owned items and over references, and Hash
+            "u.sum" | "u.product" => {
+                let cs: Result<Vec<UBig>, String> = a.iter().map(|s| p_ubig(s)).collect();
+                let cs = cs?;
+                let rs = if op == "u.sum" {
+                    vec![
+                        run1(|| { let _: UBig = cs.iter().sum(); String::new() }),
+                        run1(|| { let _: UBig = cs.clone().into_iter().sum(); String::new() }),
+                    ]
+                } else {
+                    vec![
+                        run1(|| { let _: UBig = cs.iter().product(); String::new() }),
+                        run1(|| { let _: UBig = cs.clone().into_iter().product(); String::new() }),
+                    ]
+                };
+                return merge(&["r", "v"], rs);
+            }
+            "i.sum" | "i.product" => {
+                let cs: Result<Vec<IBig>, String> = a.iter().map(|s| p_ibig(s)).collect();
+                let cs = cs?;
+                let rs = if op == "i.sum" {
+                    vec![
+                        run1(|| { let _: IBig = cs.iter().sum(); String::new() }),
+                        run1(|| { let _: IBig = cs.clone().into_iter().sum(); String::new() }),
+                    ]
+                } else {
+                    vec![
+                        run1(|| { let _: IBig = cs.iter().product(); String::new() }),
+                        run1(|| { let _: IBig = cs.clone().into_iter().product(); String::new() }),
+                    ]
+                };
+                return merge(&["r", "v"], rs);
+            }
+            "u.hash" => {
+                use std::hash::{Hash, Hasher};
+                let x = p_ubig(arg(a, 0)?)?;
+                let mut h = std::collections::hash_map::DefaultHasher::new();
+                x.hash(&mut h);
+                let mut h2 = std::collections::hash_map::DefaultHasher::new();
+                x.clone().hash(&mut h2);
+                if h.finish() != h2.finish() {
+                    return Err("forms-disagree hash(x)/hash(x.clone())".to_string());
+                }
+                done()
+            }
+            "i.hash" => {
+                use std::hash::{Hash, Hasher};
+                let x = p_ibig(arg(a, 0)?)?;
+                let mut h = std::collections::hash_map::DefaultHasher::new();
+                x.hash(&mut h);
+                let mut h2 = std::collections::hash_map::DefaultHasher::new();
+                x.clone().hash(&mut h2);
+                if h.finish() != h2.finish() {
+                    return Err("forms-disagree hash(x)/hash(x.clone())".to_string());
+                }
+                done()
+            }
             // ---- constant divisors and reduced rings
             "cd.new" => {
                 let _ = ConstDivisor::new(p_ubig(arg(a, 0)?)?);
@@ -793,6 +850,25 @@ fn float_run<R: Round, const B: Word>(op: &str, a: &[&str]) -> Res {
             let _ = Context::<R>::new(p_usize(arg(a, 1)?)?).convert_int::<B>(i);
             done()
         }
+        "f.sum" | "f.product" => {
+            // core::iter::Sum / Product (float/src/iter.rs): a fold with `+` / `*` from ZERO / ONE, owned and by reference
+            let mut xs: Vec<FBig<R, B>> = Vec::new();
+            for i in 0..a.len() {
+                xs.push(f0(i)?);
+            }
+            let rs = if op == "f.sum" {
+                vec![
+                    run1(|| { let _: FBig<R, B> = xs.iter().sum(); String::new() }),
+                    run1(|| { let _: FBig<R, B> = xs.clone().into_iter().sum(); String::new() }),
+                ]
+            } else {
+                vec![
+                    run1(|| { let _: FBig<R, B> = xs.iter().product(); String::new() }),
+                    run1(|| { let _: FBig<R, B> = xs.clone().into_iter().product(); String::new() }),
+                ]
+            };
+            merge(&["r", "v"], rs)
+        }
         "f.to_ratio" => {
             let x = f0(0)?;
             let _ = Relaxed::try_from(x.clone());
@@ -890,6 +966,19 @@ fn ratio_op(op: &str, a: &[&str]) -> Option<Res> {
                 let _ = RBig::try_from(v as f32);
                 return resf(RBig::try_from(v));
             }
+            // (rational/src/iter.rs is not a module of the crate: RBig / Relaxed have no Sum / Product impl to drive)
+            "q.hash" => {
+                use std::hash::{Hash, Hasher};
+                let (n, d) = (p_ibig(arg(a, 0)?)?, p_ubig(arg(a, 1)?)?);
+                if d.is_zero() || p_kind(arg(a, 2)?)? != "R" {
+                    return Err("bad-arg q.hash".to_string());
+                }
+                let x = RBig::from_parts(n, d);
+                let mut h = std::collections::hash_map::DefaultHasher::new();
+                x.hash(&mut h);
+                let _ = h.finish();
+                return done();
+            }
             _ => {}
         }
         // value ops: <num> <den> <kind> …  (den != 0 is the generator's duty; a zero den is reported as bad-arg)
@@ -924,6 +1013,15 @@ fn ratio_op(op: &str, a: &[&str]) -> Option<Res> {
             "q.to_float" => {
                 let p = p_usize(arg(a, 3)?)?;
                 both!(x, (x.to_float::<mode::HalfAway, 10>(p), x.to_float::<mode::Zero, 2>(p)))
+            }
+            "q.to_float_b" => {
+                // q.to_float_b <num> <den> <kind> d:<precision> d:<base 2|10>   one base per call (extreme precisions)
+                let p = p_usize(arg(a, 3)?)?;
+                match p_usize(arg(a, 4)?)? {
+                    2 => both!(x, x.to_float::<mode::Zero, 2>(p)),
+                    10 => both!(x, x.to_float::<mode::HalfAway, 10>(p)),
+                    _ => return Err("bad-arg base".to_string()),
+                }
             }
             "q.to_int_try" => both!(x, (IBig::try_from(x.clone()), UBig::try_from(x.clone()))),
             "q.div" | "q.add" | "q.sub" | "q.mul" | "q.rem" | "q.div_euclid" | "q.cmp" => {
